@@ -204,7 +204,7 @@ def has_chg(prog, site=None):
 
 
 def render(ops, srcs, prog, beta: Beta, imp: bool, rng: random.Random, placement: str | None = None,
-           mutate: bool = False) -> str:
+           mutate: bool = False, pre=None) -> str:
     """The test module for an abstract case.  Site i is reached through the expression ``s<i>()``.
 
     placements (imp = FALSE; every statement evaluates the call):
@@ -265,6 +265,11 @@ def render(ops, srcs, prog, beta: Beta, imp: bool, rng: random.Random, placement
                    "    # in-place mutation of the compared object\n"
                    "    if isinstance(o, list):\n        o[:] = _copy.deepcopy(v)\n"
                    "    else:\n        o.clear()\n        o.update(_copy.deepcopy(v))\n    return o\n\n\n")
+    # statements at module level (executed while the module is imported, outside of every test): their results are
+    # recorded, never asserted
+    for j, s in enumerate(pre or [], 1):
+        e = stmt_expr(beta, s, f"s{s['site']}()", rng.random() < 0.5)
+        out.append(f"with _r.at(0, {j}):\n    _r.val({e})\n\n\n")
     for ti, test in enumerate(prog, 1):
         out.append(f"def test_{ti}():\n")
         tup = beta.carrier == "tup"
